@@ -123,6 +123,16 @@ func runC15(c *fw.Case) (o fw.Outcome) {
 		}
 		o.Tag("resembles-previous-case")
 	}
+	if c.Idx%24 == 14 && c15Prev.set {
+		// ALGEBRAICALLY RELATED to the previous case: the same K, another OP, and a RAND chosen so that RAND xor OPc - the
+		// input of the first AES pass of f1..f5* - is the previous case's. Everything after that pass depends on OPc again.
+		copy(k, c15Prev.k[:])
+		prevOpc, opcNow := sec.ComputeOPc(c15Prev.k[:], c15Prev.op[:]), sec.ComputeOPc(k, op)
+		for i := range rnd {
+			rnd[i] = c15Prev.rnd[i] ^ prevOpc[i] ^ opcNow[i]
+		}
+		o.Tag("same-first-aes-input-as-the-previous-case")
+	}
 	copy(c15Prev.k[:], k)
 	copy(c15Prev.op[:], op)
 	copy(c15Prev.rnd[:], rnd)
